@@ -372,12 +372,7 @@ class Interpreter:
         # names (globals only knows the top-level templates), but they are
         # legitimate targets of random_reference
         nicknames_and_tables = {
-            **{
-                template.nickname: template.tablename
-                for table in dict(parse_result.tables or {}).values()
-                for template in table._templates
-                if template.nickname
-            },
+            **getattr(parse_result, "template_nicknames", {}),
             **globals.nicknames_and_tables,
         }
         self.tables_to_keep_history_for = find_tables_to_keep_history_for(
